@@ -45,6 +45,9 @@ mod windows;
 #[cfg(not(windows))]
 mod linux;
 
+#[cfg(feature = "verif")]
+pub mod verif_hooks;
+
 use crate::common::constants;
 use crate::common::error::BpfErrorType;
 use crate::common::error::Error;
@@ -390,6 +393,10 @@ pub async fn lookup_audit(
     source_port: u16,
     redirector_shared_state: &RedirectorSharedState,
 ) -> Result<AuditEntry> {
+    #[cfg(feature = "verif")]
+    if let Some(result) = verif_hooks::lookup(source_port) {
+        return result;
+    }
     if let Ok(Some(bpf_object)) = redirector_shared_state.get_bpf_object().await {
         bpf_object.lock().unwrap().lookup_audit(source_port)
     } else {
@@ -401,6 +408,10 @@ pub async fn remove_audit(
     source_port: u16,
     redirector_shared_state: &RedirectorSharedState,
 ) -> Result<()> {
+    #[cfg(feature = "verif")]
+    if let Some(result) = verif_hooks::remove(source_port) {
+        return result;
+    }
     if let Ok(Some(bpf_object)) = redirector_shared_state.get_bpf_object().await {
         bpf_object
             .lock()
